@@ -160,8 +160,8 @@ theorem RunsLike.effStack_invoked {f : List Cb → List Cb} (hf : RunsLike f) (b
 /-! ### collected exceptions -/
 
 /-- The exception of a raising callback on the stack is among the collected ones. -/
-theorem raises_collected (cid : CtxId) (be : BlockEnd) (st : List Cb) (x : Ctx) (c : Cb) (e : Exc)
-    (hm : c ∈ st) (hr : c.raises = some e) : e ∈ (runTeardown cid be st x).2.2 := by
+theorem raises_collected (cid : CtxId) (cur : Option CtxId) (be : BlockEnd) (st : List Cb) (x : Ctx) (c : Cb) (e : Exc)
+    (hm : c ∈ st) (hr : c.raises = some e) : e ∈ (runTeardown cid cur be st x).2.2 := by
   induction st using stack_induction generalizing x with
   | nil => cases hm
   | cons id p a b regs r stack ih =>
@@ -171,18 +171,18 @@ theorem raises_collected (cid : CtxId) (be : BlockEnd) (st : List Cb) (x : Ctx) 
       change r = some e at hr
       subst hr
       exact List.mem_cons_self
-    · have := ih (runBody cid x b).1 (List.mem_append_right _ h)
+    · have := ih (runBody cid cur x b).1 (List.mem_append_right _ h)
       cases r with
       | none => exact this
       | some e' => exact List.mem_cons_of_mem _ this
 
 /-- Under cancellation, the cancellation of an asynchronous callback is collected. -/
-theorem cancelled_collected (cid : CtxId) (st : List Cb) (x : Ctx) (cb : Cb) (hm : cb ∈ st)
+theorem cancelled_collected (cid : CtxId) (cur : Option CtxId) (st : List Cb) (x : Ctx) (cb : Cb) (hm : cb ∈ st)
     (ha : cb.isAsync = true) :
     Exc.cancelled ∈
-      (runTeardown cid (.raised .cancelled) (effStack (.raised .cancelled) st) x).2.2 := by
+      (runTeardown cid cur (.raised .cancelled) (effStack (.raised .cancelled) st) x).2.2 := by
   rw [effStack_cancelled]
-  exact raises_collected cid _ _ x cb.underCancel .cancelled (List.mem_map_of_mem hm)
+  exact raises_collected cid cur _ _ x cb.underCancel .cancelled (List.mem_map_of_mem hm)
     (underCancel_raises_of_async cb ha)
 
 end Cn
